@@ -78,7 +78,7 @@ def _table_case(draw):
         density=draw(st.sampled_from(["beta-binomial", "binomial"])),
         precision=draw(st.sampled_from([400.0, 1.0, 0.01, 1e5, 37.5]) | st.floats(0.01, 1e5)),
         G=draw(st.sampled_from([11, 2, 3, 101, 201, 50])),
-        outlier_prob=draw(st.sampled_from([0.0, 0.001, 0.3, 0.0])),
+        outlier_prob=draw(st.sampled_from([0.0, 0.001, 0.3, 0.0, 1e-9, 1e-12])),
         clusters=clusters,
         cluster_style=draw(st.sampled_from(["minimal", "pyclone-vi"])),
     )
